@@ -150,5 +150,6 @@ class Gen:
         if with_objects and rng.random() < 0.3:
             sub = O.OpenDocumentChart()
             self.fill_section(sub.body.firstChild, 2, 1)
+            self.fill_section(sub.settings, 3, rng.randint(1, 2))          # an object has settings of its own
             doc.addObject(sub)
         return doc
